@@ -13,15 +13,24 @@ VARIABLE s
 
 (* first/last letter of each case, first/last digit, the bytes adjacent to *)
 (* each range, separators, space, NUL, DEL, 0x80, a UTF-8 lead byte, 0xFF  *)
+(* 43 '+': a sign that number parsers accept                                *)
 Boundary == {97, 122, 65, 90, 48, 57, 64, 91, 96, 123, 47, 58, 45, 95, 46, 42, 32, 0, 127,
-             128, 195, 255, 109, 77, 53}
+             128, 195, 255, 109, 77, 53, 43}
 Reduced  == {97, 90, 48, 57, 46, 128, 45, 0, 122}
 Bytes == IF Alpha = "all" THEN 0..255 ELSE IF Alpha = "boundary" THEN Boundary ELSE Reduced
 
+(* Alpha = "oneodd": at most ONE byte of the string ranges over all 256    *)
+(* values, the others over the reduced set -- a production that gets the   *)
+(* class of a single byte value wrong at some position is found without    *)
+(* enumerating 256^n strings                                               *)
+OddCount == Cardinality({ p \in 1..Len(s) : s[p] \notin Reduced })
+
 Init == s = <<>>
 Next == /\ Len(s) < MaxLen
-        /\ Len(s) < FullLen \/ AllAlnum(s)
-        /\ \E b \in Bytes : s' = Append(s, b)
+        /\ IF Alpha = "oneodd"
+             THEN \E b \in (IF OddCount = 0 THEN 0..255 ELSE Reduced) : s' = Append(s, b)
+             ELSE /\ Len(s) < FullLen \/ AllAlnum(s)
+                  /\ \E b \in Bytes : s' = Append(s, b)
 Spec == Init /\ [][Next]_s
 
 KindSeq == <<"language", "script", "region", "variant">>
